@@ -113,12 +113,16 @@ class Ctx:
             self._pool = mp.get_context("fork").Pool(NPROC, maxtasksperchild=1)
         return self._pool
 
-    def pmap(self, func, args, chunksize=1):
-        """Run func over args on the worker pool; merge every result."""
+    def pmap(self, func, args, chunksize=1, ambient=False):
+        """Run func over args on the worker pool; merge every result.  ambient=True: every task is run a second time in
+        a process that has first called every public decoder on a fixed set of frames (engine.util.ambient)."""
         args = list(args)
         if not args:
             return
         tasks = [(func.__module__, func.__name__, a) for a in args]
+        if ambient:
+            tasks += [(__name__ if __name__ != "__main__" else "engine.runner", "_ambient_task", t) for t in tasks]
+            self.cov["tasks_repeated_after_ambient_calls"] = self.cov.get("tasks_repeated_after_ambient_calls", 0) + len(args)
         if NPROC <= 1 or len(args) == 1:
             for t in tasks:
                 self.add(_run_task(t))
@@ -138,6 +142,19 @@ def _run_task(t):
     modname, funcname, arg = t
     res = getattr(sys.modules.get(modname) or importlib.import_module(modname), funcname)(arg)
     res["task"] = t
+    return res
+
+
+def _ambient_task(t):
+    """run one task after the fixed 'earlier life' of engine.util.ambient in the same process."""
+    from engine import util
+    modname, funcname, arg = t
+    mod = sys.modules.get(modname) or importlib.import_module(modname)
+    for p in ([mod.pms] if hasattr(mod, "pms") else [mod.pm(c) for c in getattr(mod, "CONFIGS", [])]):
+        util.ambient(p)
+    res = getattr(mod, funcname)(arg)
+    res["viols"] = [(s_ + ":after_other_decoders_ran_in_the_process", c_) for s_, c_ in res["viols"]]
+    res["vcount"] = {k + ":after_other_decoders_ran_in_the_process": v for k, v in res["vcount"].items()}
     return res
 
 
@@ -237,7 +254,10 @@ def main(argv=None):
     exit_code = 0
     new_viol = 0
     reported_known = set()
+    AMB = ":after_other_decoders_ran_in_the_process"
     for sig in sorted(ctx.viols):
+        if sig.endswith(AMB) and sig[:-len(AMB)] in ctx.viols:
+            continue        # the same failure without the ambient calls is already reported
         cases = sorted(ctx.viols[sig], key=case_size)
         case = cases[0]
         # a violation is re-executed from its replay form before it is believed
